@@ -69,9 +69,9 @@ CLAIMS = {
         "technique": "Lean 4 proofs of name-environment independence + metamorphic differential check",
     },
     "C13": {
-        "text": "Proved: stepping the concatenated buffers equals concatenating the per-parameter steps when each gradient has its parameter's length (C13_step_blocks); a parameter without a gradient is marked frozen and keeps its handle, a parameter with a gradient contributes values and gradient at the same position and its gradient is taken (C13_frozen_first, C13_unfrozen_first, C13_drain_frozen). PARTIAL: the composed statement (update = per-parameter map for arbitrary lists) is not yet one theorem; it is decided on every run against the per-parameter formula for every frozen subset of 1-4 parameters, random lists of 1-6, repeated updates and gradients produced by real passes." + TIE,
+        "text": "Proved in full on the model, for every parameter list (any count, shapes, frozen subset): with pairwise distinct parameter nodes, valid handles and gradients of their parameter's length (C03), update succeeds and - read in the final state - a parameter without a gradient keeps its handle; a parameter with gradient g becomes a fresh leaf (no stored operands, no gradient, new buffer) of the same dimensions with both flags set whose values are old - lr*g element by element (C13_update: gather = concatenations in order (gdGather_spec), the positional step distributes over aligned blocks (C13_step_blocks), drain hands each parameter its own block (gdDrain_spec, drainSpec_ok)); the parameters' gradients are taken and no other gradient cell is touched (C13_gradients_cleared, C13_other_gradients_kept); without the alignment the positional drain is wrong (decide-checked counterexample). On every run: every frozen subset of 1-4 parameters, random lists of 1-6, repeated updates through fresh optimizers and through one reused GradientDescent object, compared with the per-parameter formula." + TIE,
         "note": COMMON_NOTE,
-        "technique": "Lean 4 list lemmas about the positional buffers; differential check against the per-parameter SGD formula",
+        "technique": "Lean 4 proof: update refines a per-parameter specification (induction over the parameter list with heap-extension lemmas); differential check against the per-parameter SGD formula",
     },
     "C14": {
         "text": "Proved: the backward pass of an iteration ends with clean counters/pending deltas whatever ran before (C14_no_leak); a parameter created by update is a fresh leaf with a new buffer, no stored operands and no gradient (C14_fresh_parameter). PARTIAL: the per-iteration value claim (loss of current parameters; parameters move by -lr * exact gradient) is decided on every run: after every iteration of random dense/conv models (activations, both costs, batches incl. unbatched, 1-5 iterations) the loss is compared with the cost formula on the specification forward, and the updated parameters with old - lr * forward-mode gradient." + TIE,
